@@ -589,6 +589,9 @@ struct SCase {
     g_hi: f64,
     g_bins: usize,
     via_ops: bool,
+    /// sequence case: every call on the shared instance is also asked of a fresh instance built for that call alone
+    #[serde(default)]
+    fresh_check: bool,
     /// (raw speed, unit index, raw grade, unit index, kind)
     queries: Vec<(f64, usize, f64, usize, String)>,
 }
@@ -634,7 +637,8 @@ fn emit_sg(st: &mut Stream, c: &SCase, gen: serde_json::Value) {
         }
     }
     // the real interpolated model
-    let built: Result<Result<Arc<dyn PredictionModel>, String>, String> = catch(std::panic::AssertUnwindSafe(|| {
+    let build_model = || -> Result<Result<Arc<dyn PredictionModel>, String>, String> {
+        catch(std::panic::AssertUnwindSafe(|| {
         if c.via_ops {
             let mt = ModelType::Interpolate {
                 underlying_model_type: Box::new(ModelType::Smartcore),
@@ -664,7 +668,10 @@ fn emit_sg(st: &mut Stream, c: &SCase, gen: serde_json::Value) {
             .map(|m| Arc::new(m) as Arc<dyn PredictionModel>)
             .map_err(|e| e.to_string())
         }
-    }));
+    }))
+    };
+    let built = build_model();
+    let mut history_dependent: Vec<String> = vec![];
     let mut conv_s: Vec<(f64, f64)> = vec![];
     let mut conv_g: Vec<(f64, f64)> = vec![];
     let mut cq: Vec<(f64, f64)> = vec![];
@@ -705,6 +712,20 @@ fn emit_sg(st: &mut Stream, c: &SCase, gen: serde_json::Value) {
                     Ok(Err(m)) => Ok(Err(m.replace("Failed to interpolate speed/grade model output during prediction: ", ""))),
                     x => x,
                 };
+                if c.fresh_check {
+                    // the k-th answer of a sequence of calls on one instance must be the answer of that call alone
+                    if let Ok(Ok(fresh)) = build_model() {
+                        let f: R = catch(std::panic::AssertUnwindSafe(|| {
+                            fresh
+                                .predict((Speed::new(*rs), qsu), (Grade::new(*rg), qgu))
+                                .map(|(e, _)| e.as_f64())
+                                .map_err(|e| e.to_string().replace("Failed to interpolate speed/grade model output during prediction: ", ""))
+                        }));
+                        if show_r(&f) != show_r(&r) {
+                            history_dependent.push(format!("call{}:shared={},fresh={}", outs.len(), show_r(&r), show_r(&f)));
+                        }
+                    }
+                }
                 outs.push(r);
             }
             let xs = xs.clone().unwrap();
@@ -772,6 +793,10 @@ fn emit_sg(st: &mut Stream, c: &SCase, gen: serde_json::Value) {
     }
     let desc = json!({"id": id, "family": c.family, "gen": gen, "case": c, "unit_distance_energy_equals_rate": rate_equals_energy});
     let payload = if rate_equals_energy { payload } else { format!("{} RATE!=ENERGY", payload) };
+    let payload = if history_dependent.is_empty() { payload } else { format!("{} HISTORY-DEPENDENT[{}]", payload, history_dependent.join(" ")) };
+    if c.fresh_check {
+        st.count("sequence-cases-with-fresh-instance-check");
+    }
     st.case(terms, vec![format!("I {} {}", id, payload)], desc);
 }
 
@@ -858,7 +883,40 @@ fn gen_sg(r: &mut Rng, family: &str, s_bins: usize, g_bins: usize) -> SCase {
         let rg = if qgu == gu { gv } else { back_grade(gv, GU[gu], GU[qgu]) };
         queries.push((rs, qsu, rg, qgu, k.to_string()));
     }
-    SCase { family: family.to_string(), file, su, gu, eu, s_lo, s_hi, s_bins, g_lo, g_hi, g_bins, via_ops: r.chance(1, 2), queries }
+    let mut fresh_check = false;
+    if family == "sequence" {
+        // one instance, 3-10 calls: consecutive calls re-use the SAME raw numbers under other units, repeat a call,
+        // or keep the units and change the numbers
+        fresh_check = true;
+        let n_calls = r.range(3, 10) as usize;
+        let mut seq: Vec<(f64, usize, f64, usize, String)> = vec![];
+        // raw numbers that are meaningful in several units: a speed number inside the grid when read in the model unit
+        let base = |r: &mut Rng| -> (f64, usize, f64, usize, String) {
+            let sv = (s_lo + (s_hi - s_lo) * (r.range(1, 15) as f64 / 16.0) * 4.0).round() / 4.0;
+            let gv = ((g_lo + (g_hi - g_lo) * (r.range(1, 15) as f64 / 16.0)) * 64.0).round() / 64.0;
+            (sv, r.below(3) as usize, gv, r.below(3) as usize, "seq-start".to_string())
+        };
+        seq.push(base(r));
+        while seq.len() < n_calls {
+            let (ps, psu, pg, pgu, _) = seq[seq.len() - 1].clone();
+            let other = |r: &mut Rng, u: usize| (u + 1 + r.below(2) as usize) % 3;
+            let nxt = match r.below(6) {
+                0 => (ps, other(r, psu), pg, pgu, "seq-same-numbers-other-speed-unit".to_string()),
+                1 => (ps, psu, pg, other(r, pgu), "seq-same-numbers-other-grade-unit".to_string()),
+                2 => (ps, other(r, psu), pg, other(r, pgu), "seq-same-numbers-both-units-changed".to_string()),
+                3 => (ps, psu, pg, pgu, "seq-repeat".to_string()),
+                4 => {
+                    let b = base(r);
+                    (b.0, psu, b.2, pgu, "seq-same-units-other-numbers".to_string())
+                }
+                _ => base(r),
+            };
+            seq.push(nxt);
+        }
+        queries = seq;
+    }
+    let _ = fresh_check;
+    SCase { family: family.to_string(), file, su, gu, eu, s_lo, s_hi, s_bins, g_lo, g_hi, g_bins, via_ops: r.chance(1, 2), fresh_check, queries }
 }
 
 fn det_sg() -> Vec<SCase> {
@@ -877,16 +935,34 @@ fn det_sg() -> Vec<SCase> {
         queries.push((50.0, 0, 0.0, 1, "inside".to_string()));
         queries.push((150.0, 0, 30.0, 1, "outside-both".to_string()));
         queries.push((-3.0, 2, -300.0, 2, "outside-both".to_string()));
-        out.push(SCase { family: "vehicle-grid-sweep".into(), file, su: 0, gu: 0, eu: if file == 0 { 0 } else { 1 }, s_lo: 0.0, s_hi: 100.0, s_bins, g_lo: -0.2, g_hi: 0.2, g_bins, via_ops: file % 2 == 0, queries });
+        out.push(SCase { family: "vehicle-grid-sweep".into(), file, su: 0, gu: 0, eu: if file == 0 { 0 } else { 1 }, s_lo: 0.0, s_hi: 100.0, s_bins, g_lo: -0.2, g_hi: 0.2, g_bins, via_ops: file % 2 == 0, fresh_check: false, queries });
+    }
+    // sequences of calls on ONE instance of the real smartcore-backed models (Bolt, Camry): the same raw numbers under
+    // different units in consecutive calls, repeats, and the same units with other numbers
+    for (file, eu) in [(1usize, 1usize), (0, 0)] {
+        let sq = |s: f64, su: usize, g: f64, gu: usize, k: &str| (s, su, g, gu, k.to_string());
+        let queries = vec![
+            sq(60.0, 0, 0.0, 0, "seq-start"),
+            sq(60.0, 1, 0.0, 0, "seq-same-numbers-other-speed-unit"),
+            sq(25.0, 2, 3.0, 1, "seq-start"),
+            sq(25.0, 0, 3.0, 1, "seq-same-numbers-other-speed-unit"),
+            sq(25.0, 0, 3.0, 2, "seq-same-numbers-other-grade-unit"),
+            sq(40.0, 0, -0.05, 0, "seq-same-units-other-numbers"),
+            sq(40.0, 0, -0.05, 1, "seq-same-numbers-other-grade-unit"),
+            sq(40.0, 0, -0.05, 0, "seq-same-numbers-other-grade-unit"),
+            sq(40.0, 0, -0.05, 0, "seq-repeat"),
+            sq(40.0, 1, -0.05, 2, "seq-same-numbers-both-units-changed"),
+        ];
+        out.push(SCase { family: "sequence-one-instance".into(), file, su: 0, gu: 0, eu, s_lo: 0.0, s_hi: 100.0, s_bins: 21, g_lo: -0.2, g_hi: 0.2, g_bins: 9, via_ops: file == 0, fresh_check: true, queries });
     }
     // smallest grids and degenerate configurations
     let q = vec![(10.0, 0, 0.0, 0, "inside".to_string()), (0.0, 0, -0.1, 0, "grid-point".to_string()), (99.0, 0, 0.5, 0, "outside-high".to_string())];
     let qn = vec![(f64::NAN, 0, 0.0, 0, "nan-speed".to_string()), (10.0, 0, f64::NAN, 0, "nan-grade".to_string()), (f64::INFINITY, 0, f64::NEG_INFINITY, 0, "infinite".to_string())];
-    out.push(SCase { family: "non-finite-query".into(), file: 0, su: 0, gu: 0, eu: 0, s_lo: 0.0, s_hi: 60.0, s_bins: 3, g_lo: -0.1, g_hi: 0.1, g_bins: 3, via_ops: false, queries: qn });
-    out.push(SCase { family: "bins-2x2".into(), file: 0, su: 0, gu: 0, eu: 0, s_lo: 0.0, s_hi: 60.0, s_bins: 2, g_lo: -0.1, g_hi: 0.1, g_bins: 2, via_ops: false, queries: q.clone() });
-    out.push(SCase { family: "bounds-reversed".into(), file: 0, su: 0, gu: 0, eu: 0, s_lo: 60.0, s_hi: 0.0, s_bins: 3, g_lo: -0.1, g_hi: 0.1, g_bins: 3, via_ops: true, queries: q.clone() });
-    out.push(SCase { family: "bounds-equal".into(), file: 0, su: 0, gu: 0, eu: 0, s_lo: 30.0, s_hi: 30.0, s_bins: 3, g_lo: -0.1, g_hi: 0.1, g_bins: 3, via_ops: false, queries: q.clone() });
-    out.push(SCase { family: "bins-1".into(), file: 0, su: 0, gu: 0, eu: 0, s_lo: 0.0, s_hi: 60.0, s_bins: 1, g_lo: -0.1, g_hi: 0.1, g_bins: 3, via_ops: false, queries: q.clone() });
+    out.push(SCase { family: "non-finite-query".into(), file: 0, su: 0, gu: 0, eu: 0, s_lo: 0.0, s_hi: 60.0, s_bins: 3, g_lo: -0.1, g_hi: 0.1, g_bins: 3, via_ops: false, fresh_check: false, queries: qn });
+    out.push(SCase { family: "bins-2x2".into(), file: 0, su: 0, gu: 0, eu: 0, s_lo: 0.0, s_hi: 60.0, s_bins: 2, g_lo: -0.1, g_hi: 0.1, g_bins: 2, via_ops: false, fresh_check: false, queries: q.clone() });
+    out.push(SCase { family: "bounds-reversed".into(), file: 0, su: 0, gu: 0, eu: 0, s_lo: 60.0, s_hi: 0.0, s_bins: 3, g_lo: -0.1, g_hi: 0.1, g_bins: 3, via_ops: true, fresh_check: false, queries: q.clone() });
+    out.push(SCase { family: "bounds-equal".into(), file: 0, su: 0, gu: 0, eu: 0, s_lo: 30.0, s_hi: 30.0, s_bins: 3, g_lo: -0.1, g_hi: 0.1, g_bins: 3, via_ops: false, fresh_check: false, queries: q.clone() });
+    out.push(SCase { family: "bins-1".into(), file: 0, su: 0, gu: 0, eu: 0, s_lo: 0.0, s_hi: 60.0, s_bins: 1, g_lo: -0.1, g_hi: 0.1, g_bins: 3, via_ops: false, fresh_check: false, queries: q.clone() });
     out
 }
 
@@ -935,7 +1011,10 @@ fn main() {
             } else {
                 let mut r = Rng(gen["state"].as_str().unwrap().parse::<u64>().unwrap());
                 let (sb, gb) = (gen["s_bins"].as_u64().unwrap() as usize, gen["g_bins"].as_u64().unwrap() as usize);
-                gen_sg(&mut r, "random", sb, gb)
+                let fam = gen["family"].as_str().unwrap_or("random").to_string();
+                // consume what the generating run drew before gen_sg: the two bin counts and the family choice
+                let _ = (r.range(2, 9), r.range(2, 9), r.chance(1, 3));
+                gen_sg(&mut r, &fam, sb, gb)
             };
             emit_sg(&mut st, &c, gen);
         }
@@ -963,8 +1042,9 @@ fn main() {
             let state = r.0;
             let mut r = r;
             let (sb, gb) = (r.range(2, 9) as usize, r.range(2, 9) as usize);
-            let c = gen_sg(&mut r, "random", sb, gb);
-            emit_sg(&mut st, &c, json!({"kind": "rand", "state": state.to_string(), "s_bins": sb, "g_bins": gb}));
+            let fam = if r.chance(1, 3) { "sequence" } else { "random" };
+            let c = gen_sg(&mut r, fam, sb, gb);
+            emit_sg(&mut st, &c, json!({"kind": "rand", "state": state.to_string(), "s_bins": sb, "g_bins": gb, "family": fam}));
         }
     }
     st.finish();
